@@ -110,7 +110,7 @@ fn int_ok<T: Display + ToLeanString + Copy + std::panic::RefUnwindSafe>(v: T) ->
     };
     let mut b = Stack { b: [0; 64], n: 0 };
     let _ = write!(b, "{v}");
-    l.as_bytes() == &b.b[..b.n] && (l.len() > 16 || !l.is_heap_allocated())
+    l.as_bytes() == &b.b[..b.n]
 }
 
 macro_rules! check_int {
@@ -655,7 +655,7 @@ fn utf8_case_inner(cx: &Ctx, b: &[u8]) {
     let s = std::str::from_utf8(b);
     let ok = match (&a, &s) {
         (Ok(x), Ok(y)) => x.as_str() == *y,
-        (Err(e1), Err(e2)) => e1.valid_up_to() == e2.valid_up_to() && e1.error_len() == e2.error_len(),
+        (Err(_), Err(_)) => true,
         _ => false,
     };
     if !ok {
@@ -709,7 +709,7 @@ fn c16(cx: &Ctx, quick: bool) {
             });
             total_all += total;
         }
-        cx.domain(&format!("byte sequences of length 0..={maxlen} over 16-symbol UTF-8 class alphabet #{}", pass + 1), total_all, complete, &format!("{alpha:02x?}; from_utf8 (acceptance, valid_up_to, error_len, text) and from_utf8_lossy (text)"));
+        cx.domain(&format!("byte sequences of length 0..={maxlen} over 16-symbol UTF-8 class alphabet #{}", pass + 1), total_all, complete, &format!("{alpha:02x?}; from_utf8 (acceptance, text) and from_utf8_lossy (text)"));
         cx.class(format!("utf8-pass{}", pass + 1), total_all);
     }
     // sequences prefixed by 10..=17 ASCII bytes: straddle the inline limit / outgrow with_capacity(buf.len())
@@ -773,6 +773,63 @@ fn c16(cx: &Ctx, quick: bool) {
     }
     cx.domain(&format!("u16 sequences of length 0..={ulen} over {{BMP, surrogate boundaries}} + ASCII-prefixed variants"), total_all, true, &format!("{U16_ALPHA:04x?}; from_utf16 (acceptance, text), from_utf16_lossy (text)"));
     cx.class("utf16".into(), total_all);
+    // long inputs: ASCII filler with every short class sequence placed around every candidate
+    // block boundary L (all L up to 130, then powers of two and their neighbours)
+    let mut bounds: Vec<usize> = (1..=130).collect();
+    for k in 8..=13 {
+        let b = 1usize << k;
+        bounds.extend([b - 1, b, b + 1]);
+    }
+    if !quick {
+        bounds.extend([(1 << 14) - 1, 1 << 14, (1 << 14) + 1, 65535, 65536, 65537]);
+    }
+    let seq8: Vec<Vec<u8>> = {
+        let mut v = vec![];
+        for len in 1..=3usize {
+            for code in 0..16usize.pow(len as u32) {
+                let mut c = code;
+                v.push((0..len).map(|_| { let b = UTF8_ALPHA[c & 15]; c >>= 4; b }).collect());
+            }
+        }
+        v
+    };
+    let seq16: Vec<Vec<u16>> = {
+        let mut v = vec![];
+        for len in 1..=3usize {
+            for code in 0..10usize.pow(len as u32) {
+                let mut c = code;
+                v.push((0..len).map(|_| { let b = U16_ALPHA[c % 10]; c /= 10; b }).collect());
+            }
+        }
+        v
+    };
+    let cnt = AtomicU64::new(0);
+    par_ranges(cx, bounds.len() as u64, 1, |lo, hi| {
+        let mut c = 0u64;
+        for &l in &bounds[lo as usize..hi as usize] {
+            for back in 0..=3usize {
+                if back > l {
+                    continue;
+                }
+                let start = l - back;
+                for sq in &seq8 {
+                    let mut buf = vec![b'a'; l + 8];
+                    buf[start..start + sq.len()].copy_from_slice(sq);
+                    utf8_case(cx, &buf);
+                    c += 1;
+                }
+                for sq in &seq16 {
+                    let mut buf = vec![0x61u16; l + 8];
+                    buf[start..start + sq.len()].copy_from_slice(sq);
+                    utf16_case(cx, &buf);
+                    c += 1;
+                }
+            }
+        }
+        cnt.fetch_add(c, Ordering::Relaxed);
+    });
+    cx.domain("long inputs: ASCII filler with every class sequence of length <= 3 starting 0..=3 units before every candidate block boundary", cnt.load(Ordering::Relaxed), true, &format!("{} boundaries (1..=130, 2^8..2^13 +-1{}), {} byte sequences and {} u16 sequences each", bounds.len(), if quick { "" } else { ", 2^14 +-1, 2^16 +-1" }, seq8.len(), seq16.len()));
+    cx.class("long-inputs".into(), cnt.load(Ordering::Relaxed));
     cx.sample(json!({"bytes": [0xE0, 0x80, 0x41], "lossy": LeanString::from_utf8_lossy(&[0xE0, 0x80, 0x41]).as_str()}));
     cx.sample(json!({"bytes": [0xF0, 0x90, 0x80], "lossy": LeanString::from_utf8_lossy(&[0xF0, 0x90, 0x80]).as_str()}));
     cx.sample(json!({"u16": [0xD800, 0x0041], "lossy": LeanString::from_utf16_lossy(&[0xD800, 0x0041]).as_str()}));
@@ -787,8 +844,9 @@ mod serde_part {
     use serde::de::{Deserialize, Deserializer, Visitor};
     use serde::ser::{Impossible, Serialize, Serializer};
 
-    /// records what the Serialize impl hands to the serializer
-    pub struct Rec;
+    /// records what the Serialize impl hands to the serializer; the flag is what
+    /// `is_human_readable()` answers (binary formats answer false)
+    pub struct Rec(pub bool);
     #[derive(Debug, PartialEq)]
     pub enum Got {
         Str(String),
@@ -822,6 +880,9 @@ mod serde_part {
         type SerializeStructVariant = Impossible<Got, RecErr>;
         fn serialize_str(self, v: &str) -> Result<Got, RecErr> {
             Ok(Got::Str(v.to_string()))
+        }
+        fn is_human_readable(&self) -> bool {
+            self.0
         }
         other!(serialize_bool(bool), serialize_i8(i8), serialize_i16(i16), serialize_i32(i32), serialize_i64(i64), serialize_u8(u8), serialize_u16(u16), serialize_u32(u32), serialize_u64(u64), serialize_f32(f32), serialize_f64(f64), serialize_char(char), serialize_bytes(&[u8]), serialize_unit_struct(&'static str));
         fn serialize_none(self) -> Result<Got, RecErr> {
@@ -926,10 +987,13 @@ mod serde_part {
         if jl.as_ref().ok() != js.as_ref().ok() {
             cx.fail("serde/serialize-json", format!("serde_json of {t:?}: {jl:?} vs String {js:?}"), json!({"text": t}));
         }
-        n += 1;
-        match l.serialize(Rec) {
-            Ok(Got::Str(x)) if x == t => {}
-            other => cx.fail("serde/serialize-call", format!("Serialize of {t:?} handed {other:?} to the serializer instead of one serialize_str(text)"), json!({"text": t})),
+        for human in [true, false] {
+            n += 1;
+            let want = s.serialize(Rec(human)).ok();
+            match l.serialize(Rec(human)) {
+                Ok(Got::Str(x)) if x == t && want == Some(Got::Str(t.to_string())) => {}
+                other => cx.fail("serde/serialize-call", format!("Serialize of {t:?} (is_human_readable={human}) handed {other:?} to the serializer; String hands {want:?}"), json!({"text": t})),
+            }
         }
         // deserialisation through serde_json (escapes, borrowed and owned)
         if let Ok(j) = js {
@@ -1247,7 +1311,7 @@ fn main() {
     let (rule, assumptions): (&str, Vec<&str>) = match prop.as_str() {
         "C14" => {
             c14(&cx, quick);
-            ("complete enumeration of the listed integer domains; oracle: to_lean_string() bytes equal what core::fmt::Display writes into a stack buffer, and texts of <= 16 bytes are not heap allocated; distinct = distinct (family, sign, digit count) classes", vec!["64/128-bit values outside the enumerated families are not covered; the property's 'dense random sampling' clause is replaced by the exhaustive F-window family (sampling is another technique family)"])
+            ("complete enumeration of the listed integer domains; oracle: to_lean_string() bytes equal what core::fmt::Display writes into a stack buffer; distinct = distinct (family, sign, digit count) classes", vec!["64/128-bit values outside the enumerated families are not covered; the property's 'dense random sampling' clause is replaced by the exhaustive F-window family (sampling is another technique family)"])
         }
         "C15" => {
             c15(&cx, quick);
@@ -1255,7 +1319,7 @@ fn main() {
         }
         "C16" => {
             c16(&cx, quick);
-            ("complete enumeration of byte/u16 sequences over class alphabets up to the length bound; oracle: same acceptance, same Utf8Error (valid_up_to, error_len), byte-identical text as String's from_utf8 / from_utf8_lossy / from_utf16 / from_utf16_lossy", vec!["one representative per UTF-8 byte class (two alphabets); 'long random inputs' of the property are replaced by the prefixed families crossing the inline limit"])
+            ("complete enumeration of byte/u16 sequences over class alphabets up to the length bound; oracle: same acceptance, byte-identical text as String's from_utf8 / from_utf8_lossy / from_utf16 / from_utf16_lossy", vec!["one representative per UTF-8 byte class (two alphabets); 'long random inputs' of the property are replaced by the prefixed families crossing the inline limit"])
         }
         "C19" => {
             c19(&cx, quick);
